@@ -9,7 +9,6 @@
 //verif:bound <= 4 events, one connection for the ordering obligation, <= 3 connections in a peer's list; cooperative schedule (goroutines switch at blocking points)
 //verif:stub event emitter / gater / transport connection stubs; Conn.start hooked (ghost event)
 //verif:outside genuinely concurrent AddConn calls for several connections, Swarm.Close draining, stream delivery ordering, preemptive interleavings inside the atomic sections
-//verif:nowitness
 package swarm
 
 import (
